@@ -419,10 +419,8 @@ def module_state_mutations(ctx) -> tuple[int, list[dict]]:
             elif isinstance(st, ast.AnnAssign) and isinstance(st.target, ast.Name):
                 glob.add(st.target.id)
         n_glob += len(glob)
-        if not glob:
-            continue
         for fn in ast.walk(tree):
-            if not isinstance(fn, (ast.FunctionDef, ast.AsyncFunctionDef)):
+            if not isinstance(fn, (ast.FunctionDef, ast.AsyncFunctionDef)) or not glob:
                 continue
             gl = {n for x in ast.walk(fn) if isinstance(x, ast.Global) for n in x.names}
             locs = {a.arg for a in fn.args.posonlyargs + fn.args.args + fn.args.kwonlyargs}
@@ -464,7 +462,70 @@ def module_state_mutations(ctx) -> tuple[int, list[dict]]:
                     for t in (x.targets if isinstance(x, (ast.Assign, ast.Delete)) else [x.target]):
                         if isinstance(t, ast.Subscript) and isinstance(t.value, ast.Name) and t.value.id in glob and t.value.id not in locs:
                             out.append(dict(module=m, func=fn.name, name=t.value.id, how="item assignment", line=x.lineno, data=_dep(t.slice) or _dep(getattr(x, "value", None))))
+        # --- aliases: `self.A = NAME` / `x = NAME` binds the module-level container itself (no copy); a mutation of the
+        #     alias is a mutation of NAME.  And class-level containers (`class C: cache: dict = {}`) are shared by all
+        #     instances: `self.cache[k] = v` without re-binding in __init__ writes process-wide state.
+        def _mutable(v):
+            if isinstance(v, (ast.Set, ast.List, ast.Dict, ast.ListComp, ast.SetComp, ast.DictComp)):
+                return True
+            return isinstance(v, ast.Call) and isinstance(v.func, ast.Name) and v.func.id in ("set", "list", "dict", "defaultdict", "OrderedDict", "Counter", "deque")
+        gvals = {}
+        for st in tree.body:
+            if isinstance(st, ast.Assign) and len(st.targets) == 1 and isinstance(st.targets[0], ast.Name):
+                gvals[st.targets[0].id] = st.value
+            elif isinstance(st, ast.AnnAssign) and isinstance(st.target, ast.Name) and st.value is not None:
+                gvals[st.target.id] = st.value
+        mut_globals = {k for k, v in gvals.items() if _mutable(v)}
+
+        def _attr_muts(scope, attr):
+            """mutating uses of self.<attr> inside scope: (how, line, value-depends-on-something) """
+            res = []
+            for x in ast.walk(scope):
+                if isinstance(x, ast.Call) and isinstance(x.func, ast.Attribute) and x.func.attr in MODULE_MUT and isinstance(x.func.value, ast.Attribute) and x.func.value.attr == attr and isinstance(x.func.value.value, ast.Name) and x.func.value.value.id in ("self", "cls"):
+                    res.append((f".{x.func.attr}()", x.lineno, bool(x.args or x.keywords)))
+                if isinstance(x, (ast.Assign, ast.AugAssign, ast.Delete)):
+                    for t in (x.targets if isinstance(x, (ast.Assign, ast.Delete)) else [x.target]):
+                        if isinstance(t, ast.Subscript) and isinstance(t.value, ast.Attribute) and t.value.attr == attr and isinstance(t.value.value, ast.Name) and t.value.value.id in ("self", "cls"):
+                            res.append(("item assignment", x.lineno, True))
+            return res
+
+        for cl in [c for c in ast.walk(tree) if isinstance(c, ast.ClassDef)]:
+            for fn in [x for x in cl.body if isinstance(x, (ast.FunctionDef, ast.AsyncFunctionDef))]:
+                for x in ast.walk(fn):
+                    if isinstance(x, ast.Assign) and isinstance(x.value, ast.Name) and x.value.id in mut_globals:
+                        for t in x.targets:
+                            if isinstance(t, ast.Attribute) and isinstance(t.value, ast.Name) and t.value.id == "self":
+                                for how, line, dep_ in _attr_muts(cl, t.attr):
+                                    out.append(dict(module=m, func=f"{cl.name}.{fn.name}", name=x.value.id, how=f"bound uncopied to self.{t.attr} ({fn.name}:{x.lineno}) and changed through it by {how}", line=line, data=dep_))
+            # class-level containers mutated through instances and never re-bound per instance
+            for st in cl.body:
+                tgt, val = (st.targets[0], st.value) if isinstance(st, ast.Assign) and len(st.targets) == 1 else (st.target, st.value) if isinstance(st, ast.AnnAssign) else (None, None)
+                if not (isinstance(tgt, ast.Name) and val is not None and _mutable(val)):
+                    continue
+                if any(isinstance(d, ast.Name) and d.id == "dataclass" or isinstance(d, ast.Call) and isinstance(d.func, ast.Name) and d.func.id == "dataclass" for d in cl.decorator_list):
+                    continue
+                rebound = any(isinstance(x, (ast.Assign, ast.AnnAssign)) and any(isinstance(t, ast.Attribute) and t.attr == tgt.id and isinstance(t.value, ast.Name) and t.value.id == "self" for t in (x.targets if isinstance(x, ast.Assign) else [x.target]))
+                              for fn in cl.body if isinstance(fn, ast.FunctionDef) and fn.name == "__init__" for x in ast.walk(fn))
+                if rebound:
+                    continue
+                for how, line, dep_ in _attr_muts(cl, tgt.id):
+                    out.append(dict(module=m, func=cl.name, name=f"{cl.name}.{tgt.id}", how=f"class-level container shared by all instances, changed through self.{tgt.id} by {how}", line=line, data=dep_))
     return n_glob, out
+
+
+def param_mutations(f: Func, pname: str) -> list[ast.AST]:
+    """Statements of f that change the mapping/list passed in as parameter `pname` in place (update/setdefault/pop/...,
+    item assignment or deletion) - the caller's object, which outlives the call."""
+    out = []
+    for n in ast.walk(f.node):
+        if isinstance(n, ast.Call) and isinstance(n.func, ast.Attribute) and n.func.attr in MODULE_MUT and isinstance(n.func.value, ast.Name) and n.func.value.id == pname:
+            out.append(n)
+        elif isinstance(n, (ast.Assign, ast.AugAssign, ast.Delete)):
+            for t in (n.targets if isinstance(n, (ast.Assign, ast.Delete)) else [n.target]):
+                if isinstance(t, ast.Subscript) and isinstance(t.value, ast.Name) and t.value.id == pname:
+                    out.append(n)
+    rebound = any(isinstance(n, ast.Assign) and any(isinstance(t, ast.Name) and t.id == pname for t in n.targets) for n in ast.walk(f.node))
+    return [] if rebound else out   # `config = dict(config)` first: a private copy is being changed
 
 
 def ancestor_walks(f: Func) -> list[dict]:
